@@ -460,13 +460,22 @@ func monHandshake(w *World) {
 			"server entered the data phase with window n=%d (s=%d): the protocol needs 1 <= n <= 254", s.N, s.S)
 		return
 	}
-	if s.N != want {
-		w.fail("handshake/window-mismatch", "server is in the data phase with n=%d, the client proposed %d", s.N, want)
+	if w.sc.RawClient != nil {
+		if s.N != want {
+			w.fail("handshake/window-mismatch", "server is in the data phase with n=%d, the client proposed %d", s.N, want)
+		}
+		return
 	}
+	// Both ends in the data phase must use the window the client proposed.
+	// (A server that completed a handshake with the stale SYN/SYNACK of an
+	// earlier connection that used another window is not yet a violation:
+	// the protocol has no connection ids, the current client then fails
+	// visibly on the mismatching echo, and its SYN or FIN tears the server
+	// down.)
 	if w.C.Conn != nil {
 		c := w.C.Conn.VerifSnapshot()
-		if c.Started && c.N != want {
-			w.fail("handshake/client-window", "client is in the data phase with n=%d, it proposed %d", c.N, want)
+		if c.Started && !c.QuitClosed && !s.QuitClosed && (c.N != want || s.N != want) {
+			w.fail("handshake/window-mismatch", "both ends are in the data phase, the client with n=%d and the server with n=%d; the client proposed %d", c.N, s.N, want)
 		}
 	}
 }
@@ -663,4 +672,29 @@ func concatOfPrefixes(b, msg []byte) bool {
 		}
 	}
 	return len(b) > 0 && ok[len(b)]
+}
+
+// finalQuiet is oracle (c) of C06 in its end-of-run form: the applications
+// have finished (everything was delivered) and the connection has been left
+// alone for IdleAfter; whatever recovery was still going on must be over: no
+// DATA packet other than keepalive pings in the last third of that period.
+func finalQuiet(w *World, x *vrt.Exec) {
+	if len(w.findings) > 0 || !w.goalReached || w.sc.IdleAfter < 6*time.Second {
+		return
+	}
+	if closedBeforeDrain(w, x) != "" {
+		return
+	}
+	from := w.goalAt + w.sc.IdleAfter*2/3
+	for _, l := range []*Link{w.c2s, w.s2c} {
+		for _, r := range l.wire {
+			if r.At >= from && r.At <= w.endAt && strings.HasPrefix(pktName(r.Data), "DATA") {
+				w.fail("progress/still-retransmitting/"+l.name,
+					"%s: %s transmitted at %v; every message had been delivered and the applications were idle since %v, so retransmission should have stopped long before",
+					l.name, pktName(r.Data), r.At, w.goalAt)
+				return
+			}
+		}
+	}
+	w.reached["quiet-at-end"] = true
 }
